@@ -1358,7 +1358,16 @@ func (x *exec) step(i int, op core.Op, sweepMax int) string {
 		called := false
 		err := walletdb.Update(x.db, func(tx walletdb.ReadWriteTx) error {
 			called = true
-			inner = x.mgr.ChangePassphrase(tx.ReadWriteBucket(nsKey), oldArg, cp(newPw), private, &waddrmgr.FastScryptOptions)
+			// the caller's buffers are its own again once the call has
+			// returned: they are wiped before the transaction commits
+			oldBuf, newBuf := cp(oldArg), cp(newPw)
+			inner = x.mgr.ChangePassphrase(tx.ReadWriteBucket(nsKey), oldBuf, newBuf, private, &waddrmgr.FastScryptOptions)
+			for i := range oldBuf {
+				oldBuf[i] = 0
+			}
+			for i := range newBuf {
+				newBuf[i] = 0
+			}
 			return inner
 		})
 		fired := x.db.Fired > 0
